@@ -214,10 +214,19 @@ def run(ctx):
         for ni in (5, None, 2.5):
             queries.append([Sym("event"), single, Sym("notIterable")])
             meta.append(("event", (single, "ni", ni), f"event single={single} non-iterable"))
+    # the whole space is asked TWICE: in a process where nothing has failed yet, and again after decodes, encodes and
+    # constructor calls of every block class have failed (and been caught): acceptance must not depend on that
+    n_once = len(queries)
+    queries, meta = queries + queries, meta + [(p_, o_, d_ + " [after failures elsewhere]") for p_, o_, d_ in meta]
     answers = common.drv_batch([[Sym("shape.accepts"), queries]])[0]
     from basictdf.tdfEvents import Event, EventsDataType, TemporalEventsData
     from basictdf.tdfForce3D import ForceTorque3D, ForceTorqueTrack
-    for (param, obj, desc), m in zip(meta, answers):
+    import blockrun as Bk
+    for qi, ((param, obj, desc), m) in enumerate(zip(meta, answers)):
+        if qi == n_once:
+            for kd in A.KINDS:
+                for _ in range(6):
+                    Bk.provoke(rng, kinds=[kd])
         model_accepts = m == 1
         exc = None
         blk = None
